@@ -1,7 +1,9 @@
 (* Proofs/PinTest_round.v -- GENERATED: the compiled copy of the pin blocks of package round
    (Props/pending/C01 C02 C03 C04 C07 C11 C15 _round.v.txt, concatenated
    unchanged after this header).  It exists only to prove that the blocks compile; the coordinator appends each
-   block to its Props/CXX.v at merge.  Regenerate with: cat header + the pending files (see .cache/mkpintest.sh). *)
+   block to its Props/CXX.v at merge.  To regenerate: keep this header (the lines up to and including 'Local Open Scope
+   nat_scope.'), then for every f in Props/pending/C*_round.v.txt in lexical order append the line
+   '(* ---------- f ---------- *)', the file f, and an empty line. *)
 From Coq Require Import List Arith ZArith Lia.
 From OV Require Import Base.Panic Base.Arith Model.Vector Model.Matrix Model.Solve Model.Sparse Model.Poly Model.Banded.
 Import ListNotations.
